@@ -197,9 +197,12 @@ def neI (c d : Interval α) : Bool :=
 /-- `operator<=(IntervalConstraint)`: compares the bounds only (not the flags) -/
 def leI (c d : Interval α) : Bool := Bound.geb c.lo d.lo && Bound.leb c.hi d.hi
 
-/-! ### emptiness (Constraints.h:384), repaired -/
+/-! ### emptiness (Constraints.h:405-415), repaired twice: the second disjunct tests the flags
+(it repeated `lb > ub`), and a one-point interval is non-empty only when the point is finite
+(`[+inf,+inf]`, `[-inf,-inf]` accept no real number) -/
 def isEmpty (c : Interval α) : Bool :=
-  Bound.gtb c.lo c.hi || (Bound.eqb c.lo c.hi && !(c.inclLo && c.inclHi))
+  Bound.gtb c.lo c.hi ||
+    (Bound.eqb c.lo c.hi && !(c.inclHi && c.inclLo && c.finiteLowerBound && c.finiteUpperBound))
 
 /-! ### executable specifications evaluated by the driver on the implementation's answers
 (the theorems of BppProofs/Props/C01.lean connect them with the functions above) -/
@@ -244,6 +247,11 @@ def interAssign (c d : Interval α) : Interval α :=
 /-- `isEmpty` as found: the second disjunct repeats `lb > ub` -/
 def isEmpty (c : Interval α) : Bool :=
   Bound.gtb c.lo c.hi || (Bound.gtb c.lo c.hi && c.inclHi && c.inclLo)
+
+/-- `isEmpty` after the first repair only: a one-point interval at an infinite bound is reported
+non-empty although it accepts no real number -/
+def isEmpty1 (c : Interval α) : Bool :=
+  Bound.gtb c.lo c.hi || (Bound.eqb c.lo c.hi && !(c.inclLo && c.inclHi))
 
 end Legacy
 
